@@ -124,9 +124,13 @@ impl PageCache {
         };
 
         let mut found_victim = None;
-        // Attempt to iterate over all the frames.
-        while self.cursor <= self.frames.len() && found_victim.is_none() {
-            if let Some((pid, frame)) = self.frames.get_index(self.cursor) {
+        // Clock sweep: look at every frame once, starting where the last sweep stopped and
+        // wrapping around at the end.
+        for _ in 0..self.frames.len() {
+            if self.cursor >= self.frames.len() {
+                self.cursor = 0;
+            }
+            if let Some((_, frame)) = self.frames.get_index(self.cursor) {
                 if frame.is_free() {
                     self.stats.eviction();
 
